@@ -87,7 +87,8 @@ Definition in_slot (s : nat) (e : centry) : bool := Nat.eqb (slot_of e) s.
 Section Query.
 Variable d : dist.
 Variable K : nat.                                     (* internal_k *)
-Variable au : Z -> list ext -> bool.                  (* audit of one read of upper_bound[0] *)
+Variable au : bool -> ctree -> list ext -> bool.      (* audit of one read of upper_bound[0]:
+                                                         true = in copy_*, false = in descend / final filter *)
 
 (* ---------- copy_zero_set ---------- *)
 Fixpoint copy_zero_set (qc : ctree) (ub : list ext) (zero : list dnode) (ok : bool)
@@ -95,7 +96,7 @@ Fixpoint copy_zero_set (qc : ctree) (ub : list ext) (zero : list dnode) (ok : bo
   match zero with
   | [] => (ub, [], ok)
   | (edist, en) :: rest =>
-      let ok1 := ok && au (c_p qc) ub in
+      let ok1 := ok && au true qc ub in
       let upper_dist := eadd (ub0 ub) (c_maxd qc) in
       if shell edist (c_pard qc) upper_dist then
         let dq := dd d (c_p qc) (c_p en) in
@@ -115,7 +116,7 @@ Fixpoint copy_slot (qc : ctree) (ub : list ext) (s : nat) (cover : list centry) 
   | [] => (ub, [], ok)
   | (es, (edist, en)) :: rest =>
       if Nat.eqb es s then
-        let ok1 := ok && au (c_p qc) ub in
+        let ok1 := ok && au true qc ub in
         let upper_dist := eadd (eadd (ub0 ub) (c_maxd qc)) (c_maxd en) in
         if shell edist (c_pard qc) upper_dist then
           let dq := dd d (c_p qc) (c_p en) in
@@ -143,50 +144,53 @@ Fixpoint copy_cover_sets (qc : ctree) (ub : list ext) (s : nat) (n : nat) (cover
 Record dstate : Type := DS { ds_ub : list ext; ds_ms : nat; ds_cover : list centry;
                              ds_zero : list dnode; ds_ok : bool }.
 
-(* the loop over the children after the first one *)
+(* one iteration of the loop over the children after the first one *)
+Definition descend_child (q : ctree) (pdist : Z) (chi : ctree) (st : dstate) : dstate :=
+  let ub := ds_ub st in
+  let ok1 := ds_ok st && au false q ub in
+  let upper_chi := eadd (eadd (eadd (ub0 ub) (c_maxd chi)) (c_maxd q)) (c_maxd q) in
+  if shell pdist (c_pard chi) upper_chi then
+    let dq := dd d (c_p q) (c_p chi) in
+    if le_e dq upper_chi then
+      let ub1 := if lt_e dq (ub0 ub) then ub_update ub dq else ub in
+      if negb (is_leaf chi) then
+        DS ub1 (Nat.max (ds_ms st) (c_scale chi))
+           (ds_cover st ++ [(c_scale chi, (dq, chi))]) (ds_zero st) ok1
+      else if le_e dq (eadd upper_chi (- c_maxd chi)) then
+        DS ub1 (ds_ms st) (ds_cover st) (ds_zero st ++ [(dq, chi)]) ok1
+      else DS ub1 (ds_ms st) (ds_cover st) (ds_zero st) ok1
+    else DS ub (ds_ms st) (ds_cover st) (ds_zero st) ok1
+  else DS ub (ds_ms st) (ds_cover st) (ds_zero st) ok1.
+
 Fixpoint descend_children (q : ctree) (pdist : Z) (chs : list ctree) (st : dstate) : dstate :=
   match chs with
   | [] => st
-  | chi :: rest =>
-      let ub := ds_ub st in
-      let ok1 := ds_ok st && au (c_p q) ub in
-      let upper_chi := eadd (eadd (eadd (ub0 ub) (c_maxd chi)) (c_maxd q)) (c_maxd q) in
-      let st1 :=
-        if shell pdist (c_pard chi) upper_chi then
-          let dq := dd d (c_p q) (c_p chi) in
-          if le_e dq upper_chi then
-            let ub1 := if lt_e dq (ub0 ub) then ub_update ub dq else ub in
-            if negb (is_leaf chi) then
-              DS ub1 (Nat.max (ds_ms st) (c_scale chi))
-                 (ds_cover st ++ [(c_scale chi, (dq, chi))]) (ds_zero st) ok1
-            else if le_e dq (eadd upper_chi (- c_maxd chi)) then
-              DS ub1 (ds_ms st) (ds_cover st) (ds_zero st ++ [(dq, chi)]) ok1
-            else DS ub1 (ds_ms st) (ds_cover st) (ds_zero st) ok1
-          else DS ub (ds_ms st) (ds_cover st) (ds_zero st) ok1
-        else DS ub (ds_ms st) (ds_cover st) (ds_zero st) ok1 in
-      descend_children q pdist rest st1
+  | chi :: rest => descend_children q pdist rest (descend_child q pdist chi st)
   end.
+
+(* the first child: same point as the parent, no distance evaluation *)
+Definition descend_first (q : ctree) (pdist : Z) (upper_dist : ext) (chi : ctree) (st : dstate) (ok1 : bool)
+  : dstate :=
+  let ub := ds_ub st in
+  if le_e pdist (eadd upper_dist (c_maxd chi)) then
+    if negb (is_leaf chi) then
+      DS ub (Nat.max (ds_ms st) (c_scale chi))
+         (ds_cover st ++ [(c_scale chi, (pdist, chi))]) (ds_zero st) ok1
+    else if le_e pdist upper_dist then
+      DS ub (ds_ms st) (ds_cover st) (ds_zero st ++ [(pdist, chi)]) ok1
+    else DS ub (ds_ms st) (ds_cover st) (ds_zero st) ok1
+  else DS ub (ds_ms st) (ds_cover st) (ds_zero st) ok1.
 
 Definition descend_parent (q : ctree) (pdist : Z) (par : ctree) (st : dstate) : dstate :=
   let ub := ds_ub st in
-  let ok1 := ds_ok st && au (c_p q) ub in
+  let ok1 := ds_ok st && au false q ub in
   let upper_dist := eadd (eadd (ub0 ub) (c_maxd q)) (c_maxd q) in
   if le_e pdist (eadd upper_dist (c_maxd par)) then
     match c_ch par with
     | [] => DS ub (ds_ms st) (ds_cover st) (ds_zero st) false
-            (* C++ dereferences children.begin() of an empty vector: excluded by ct_inv /
-               the cover-set invariant (only nodes with children are put into cover sets) *)
-    | chi :: rest =>
-        let st1 :=
-          if le_e pdist (eadd upper_dist (c_maxd chi)) then
-            if negb (is_leaf chi) then
-              DS ub (Nat.max (ds_ms st) (c_scale chi))
-                 (ds_cover st ++ [(c_scale chi, (pdist, chi))]) (ds_zero st) ok1
-            else if le_e pdist upper_dist then
-              DS ub (ds_ms st) (ds_cover st) (ds_zero st ++ [(pdist, chi)]) ok1
-            else DS ub (ds_ms st) (ds_cover st) (ds_zero st) ok1
-          else DS ub (ds_ms st) (ds_cover st) (ds_zero st) ok1 in
-        descend_children q pdist rest st1
+            (* C++ dereferences children.begin() of an empty vector: excluded by the cover-set
+               invariant (only nodes with children are put into cover sets) *)
+    | chi :: rest => descend_children q pdist rest (descend_first q pdist upper_dist chi st ok1)
     end
   else DS ub (ds_ms st) (ds_cover st) (ds_zero st) ok1.
 
@@ -209,24 +213,48 @@ Definition row := (Z * list Z)%type.                  (* query sample, res[i][1.
 Definition final_row (q : ctree) (zero : list dnode) (ub : list ext) : row :=
   (c_p q, map (fun e => c_p (snd e)) (filter (fun e => le_e (fst e) (ub0 ub)) zero)).
 
+(* the loop over the query children after the first one; `bn` is brute_nearest itself *)
+Definition bn_others (bn : ctree -> list dnode -> list ext -> bool -> list row * bool)
+                     (ub : list ext) (zero : list dnode)
+  : list ctree -> list row -> bool -> list row * bool :=
+  fix go (l : list ctree) (acc : list row) (okk : bool) : list row * bool :=
+  match l with
+  | [] => (acc, okk)
+  | chi :: l' =>
+      let nub := setter K (eadd (ub0 ub) (c_pard chi)) in
+      let '(nub1, nzero, ok1) := copy_zero_set chi nub zero okk in
+      let '(rows1, ok2) := bn chi nzero nub1 ok1 in
+      go l' (acc ++ rows1) ok2
+  end.
+
 Fixpoint brute_nearest (q : ctree) (zero : list dnode) (ub : list ext) (ok : bool)
   : list row * bool :=
   match q with
-  | CN p _ _ _ [] => ([final_row q zero ub], ok && au p ub)
+  | CN p _ _ _ [] => ([final_row q zero ub], ok && au false q ub)
   | CN _ _ _ _ (c0 :: rest) =>
       let '(rows0, ok0) := brute_nearest c0 zero ub ok in
-      (fix others (l : list ctree) (acc : list row) (okk : bool) : list row * bool :=
-         match l with
-         | [] => (acc, okk)
-         | chi :: l' =>
-             let nub := setter K (eadd (ub0 ub) (c_pard chi)) in
-             let '(nub1, nzero, ok1) := copy_zero_set chi nub zero okk in
-             let '(rows1, ok2) := brute_nearest chi nzero nub1 ok1 in
-             others l' (acc ++ rows1) ok2
-         end) rest rows0 ok0
+      bn_others (fun c z u o => brute_nearest c z u o) ub zero rest rows0 ok0
   end.
 
 (* ---------- internal_batch_nearest_neighbor ---------- *)
+(* the loop over the query children after the first one; `rec` is the recursive call *)
+Definition ib_loop (rec : ctree -> list centry -> list dnode -> nat -> nat -> list ext -> bool ->
+                          option (list row * bool))
+                   (ub : list ext) (cover : list centry) (zero : list dnode) (cs ms : nat)
+  : list ctree -> list row -> bool -> option (list row * bool) :=
+  fix go (l : list ctree) (acc : list row) (okk : bool) : option (list row * bool) :=
+  match l with
+  | [] => Some (acc, okk)
+  | chi :: l' =>
+      let nub := setter K (eadd (ub0 ub) (c_pard chi)) in
+      let '(nub1, nzero, ok1) := copy_zero_set chi nub zero okk in
+      let '(nub2, ncover, ok2) := copy_cover_sets chi nub1 cs (S ms - cs) cover ok1 in
+      match rec chi ncover nzero cs ms nub2 ok2 with
+      | None => None
+      | Some (rows1, ok3) => go l' (acc ++ rows1) ok3
+      end
+  end.
+
 Fixpoint internal_batch (fuel : nat) (q : ctree) (cover : list centry) (zero : list dnode)
                         (cs ms : nat) (ub : list ext) (ok : bool) : option (list row * bool) :=
   match fuel with
@@ -237,20 +265,7 @@ Fixpoint internal_batch (fuel : nat) (q : ctree) (cover : list centry) (zero : l
         match c_ch q with
         | [] => None     (* C++ dereferences children.begin() of a leaf: leaves have scale 100 *)
         | c0 :: rest =>
-            let loop :=
-              (fix loop (l : list ctree) (acc : list row) (okk : bool) : option (list row * bool) :=
-                 match l with
-                 | [] => Some (acc, okk)
-                 | chi :: l' =>
-                     let nub := setter K (eadd (ub0 ub) (c_pard chi)) in
-                     let '(nub1, nzero, ok1) := copy_zero_set chi nub zero okk in
-                     let '(nub2, ncover, ok2) := copy_cover_sets chi nub1 cs (S ms - cs) cover ok1 in
-                     match internal_batch f chi ncover nzero cs ms nub2 ok2 with
-                     | None => None
-                     | Some (rows1, ok3) => loop l' (acc ++ rows1) ok3
-                     end
-                 end) in
-            match loop rest [] ok with
+            match ib_loop (internal_batch f) ub cover zero cs ms rest [] ok with
             | None => None
             | Some (rows, ok1) =>
                 match internal_batch f c0 cover zero cs ms ub ok1 with
@@ -275,13 +290,21 @@ End Query.
 Definition count_within (d : dist) (pts : list Z) (q v : Z) : nat :=
   length (filter (fun y => dd d q y <=? v) pts).
 
-Definition valid_b (d : dist) (pts : list Z) (K : nat) (q : Z) (ub : list ext) : bool :=
+(* descend / final filter (copy = false): at least K samples lie within v = upper_bound[0] of the
+   query node's point.  copy_* (copy = true): for every sample q' below the query child qc at least
+   K samples lie within v + max_dist(qc) - d(qc, q') of q' (what the single max_dist in copy_zero_set
+   and copy_cover_sets needs; it is implied by the covering/separation structure of a real cover tree,
+   which is not modelled, and is therefore audited on every run). *)
+Definition valid_b (d : dist) (pts : list Z) (K : nat) (copy : bool) (q : ctree) (ub : list ext) : bool :=
   match ub0 ub with
   | None => true
-  | Some v => Nat.leb K (count_within d pts q v)
+  | Some v =>
+      if copy then
+        forallb (fun q' => Nat.leb K (count_within d pts q' (v + c_maxd q - dd d (c_p q) q'))) (leaf_points q)
+      else Nat.leb K (count_within d pts (c_p q) v)
   end.
 
-Definition no_audit (q : Z) (ub : list ext) : bool := true.
+Definition no_audit (copy : bool) (q : ctree) (ub : list ext) : bool := true.
 
 (* ---------- invariants of a built tree, boolean checker for dumped real trees ---------- *)
 Fixpoint size (t : ctree) : nat :=
